@@ -69,6 +69,7 @@ Record encops := {
   e_c : cmp -> val;
   has_root : list byte -> bool; is_absolute : list byte -> bool;
   st_has_root : st -> bool; st_is_absolute : st -> bool;   (* asked of an iterator in any state *)
+  st_prefix : st -> val;                                    (* Windows: prefix() of the iterator in its current state *)
   o_parent : list byte -> option (list byte);
   o_ancestors : list byte -> list (list byte);
   o_file_name : list byte -> option (list byte);
@@ -100,7 +101,7 @@ Notation init := (init E). Notation nextf := (nextf E). Notation nextb := (nextb
 Notation remaining := (remaining E). Notation back_off := (back_off E). Notation c_bytes := (c_bytes E).
 Notation c_inner := (c_inner E). Notation c_valid := (c_valid E). Notation e_c := (e_c E).
 Notation has_root := (has_root E). Notation is_absolute := (is_absolute E).
-Notation st_has_root := (st_has_root E). Notation st_is_absolute := (st_is_absolute E).
+Notation st_has_root := (st_has_root E). Notation st_is_absolute := (st_is_absolute E). Notation st_prefix := (st_prefix E).
 Notation o_parent := (o_parent E). Notation o_ancestors := (o_ancestors E).
 Notation o_file_name := (o_file_name E). Notation o_file_stem := (o_file_stem E). Notation o_extension := (o_extension E).
 Notation o_starts_with := (o_starts_with E). Notation o_ends_with := (o_ends_with E).
@@ -113,7 +114,8 @@ Notation vtag := (vtag E). Notation vidx := (vidx E).
 Definition variant : val := if typed then VC vtag [] else VN.
 
 (* what the iterator itself reports in its current state: has_root, is_absolute, its path view, the variant *)
-Definition it_state (s : st) : val := vt [VBool (st_has_root s); VBool (st_is_absolute s); VB (remaining s); variant].
+Definition it_state (s : st) : val :=
+  vt [VBool (st_has_root s); VBool (st_is_absolute s); VB (remaining s); variant; if typed then VN else st_prefix s].
 (* schedule with absolute offsets; [a] = offset of the current input inside the original *)
 Fixpoint obs_sched (s : st) (a : nat) (sched : list bool) : list val :=
   match sched with
@@ -146,6 +148,9 @@ Definition ob_comp_valid (p : list byte) : val :=
   VL (map (fun c => if typed then VN else VBool (c_valid c)) (o_components p)).
 Definition ob_parent (p : list byte) : val := vopt VB (o_parent p).
 Definition ob_ancestors (p : list byte) : val := vlist VB (o_ancestors p).
+(* the variant tag of every path parent / ancestors hand out (runtime-typed families) *)
+Definition ob_parent_variants (p : list byte) : val :=
+  if typed then VL ((match o_parent p with Some _ => [variant] | None => [] end) ++ map (fun _ => variant) (o_ancestors p)) else VL [].
 Definition ob_names (p : list byte) : val :=
   vt [vopt VB (o_file_name p); vopt VB (o_file_stem p); vopt VB (o_extension p)].
 Definition ob_rel (a b : list byte) : val :=
@@ -191,7 +196,7 @@ End Obs.
 Definition UE : encops := {|
   st := ustate; cmp := comp; init := u_init; nextf := u_nextf; nextb := u_nextb; remaining := u_remaining;
   back_off := u_back_off; c_bytes := uc_bytes; c_inner := c_is_normal; c_valid := uc_is_valid; e_c := e_comp;
-  has_root := u_has_root; is_absolute := u_is_absolute; st_has_root := us_has_root; st_is_absolute := us_has_root; o_parent := u_parent; o_ancestors := u_ancestors;
+  has_root := u_has_root; is_absolute := u_is_absolute; st_has_root := us_has_root; st_is_absolute := us_has_root; st_prefix := (fun _ => VN); o_parent := u_parent; o_ancestors := u_ancestors;
   o_file_name := u_file_name; o_file_stem := u_file_stem; o_extension := u_extension;
   o_starts_with := u_starts_with; o_ends_with := u_ends_with; o_strip_prefix := u_strip_prefix;
   o_eq := u_path_eq; o_cmp := u_path_cmp; o_hash := u_hash; o_push := u_push; o_push_checked := u_push_checked;
@@ -201,7 +206,8 @@ Definition wc_inner (c : wcomp) : bool := match c with WPrefix _ _ => true | WC 
 Definition WE : encops := {|
   st := wstate; cmp := wcomp; init := w_init; nextf := w_nextf; nextb := w_nextb; remaining := w_remaining;
   back_off := w_back_off; c_bytes := wc_bytes; c_inner := wc_inner; c_valid := wc_is_valid; e_c := e_wcomp;
-  has_root := w_has_root; is_absolute := w_is_absolute; st_has_root := ws_has_root; st_is_absolute := ws_is_absolute; o_parent := w_parent; o_ancestors := w_ancestors;
+  has_root := w_has_root; is_absolute := w_is_absolute; st_has_root := ws_has_root; st_is_absolute := ws_is_absolute;
+  st_prefix := (fun s => match w_nextf s with Some (WPrefix raw k, _) => VSome (vpair (VB raw) (e_wkind k)) | _ => VN end); o_parent := w_parent; o_ancestors := w_ancestors;
   o_file_name := w_file_name; o_file_stem := w_file_stem; o_extension := w_extension;
   o_starts_with := w_starts_with; o_ends_with := w_ends_with; o_strip_prefix := w_strip_prefix;
   o_eq := w_path_eq; o_cmp := w_path_cmp; o_hash := w_hash; o_push := w_push; o_push_checked := w_push_checked;
@@ -213,7 +219,7 @@ Definition SE : encops := {|
   st := scomps; cmp := comp; init := s_init; nextf := s_nextf; nextb := s_nextb; remaining := s_as_path;
   back_off := fun _ => O; c_bytes := uc_bytes; c_inner := fun _ => false; c_valid := fun _ => true; e_c := e_comp;
   has_root := s_has_root; is_absolute := s_has_root;
-  st_has_root := fun c => s_has_root (s_as_path c); st_is_absolute := fun c => s_has_root (s_as_path c); o_parent := s_parent; o_ancestors := s_ancestors;
+  st_has_root := fun c => s_has_root (s_as_path c); st_is_absolute := fun c => s_has_root (s_as_path c); st_prefix := (fun _ => VN); o_parent := s_parent; o_ancestors := s_ancestors;
   o_file_name := s_file_name; o_file_stem := s_file_stem; o_extension := s_extension;
   o_starts_with := s_starts_with; o_ends_with := s_ends_with; o_strip_prefix := s_strip_prefix;
   o_eq := s_path_eq; o_cmp := s_path_cmp; o_hash := fun _ => []; o_push := s_push;
